@@ -8,22 +8,64 @@ KANI_NOTE = ("Bounded: Kani/CBMC decides each harness for ALL values of its symb
              "(lengths/capacities <= 3-5, element layouts and backends as instantiated); dev-profile semantics; a panic ends the path (no unwinding); "
              "core::panicking::assert_failed stubbed; heap capacities concrete per query. Counterexamples are replayed natively (dev+release) before a VIOLATION is printed.")
 
+A = "bounded model checking of the compiled crate (Kani 0.68 / CBMC 6.11, cadical SAT) against a reference model + identity registry; native replay of counterexamples"
+AB = A + "; loop-free arithmetic kernels: symbolic execution of rustc MIR to SMT-LIB2 (z3, cvc5 cross-check), full 64-bit range, dev and release overflow semantics"
 CLAIMED = {
-    "C01": dict(cat="model_checking", ref="DESIGN.md §3 C01",
-                text="One-operation-from-arbitrary-state harnesses over the real crate (Kani/CBMC, SAT): every (len, index, payload) inside the bound for push/insert/pop/remove/swap_remove/clear, "
-                     "all value sources/sinks, erased+typed paths, compared with a Vec reference model; out-of-range calls must end in the documented panic / None.",
-                tech="bounded model checking of the compiled crate (Kani 0.68 / CBMC 6.11, cadical) against a reference model; native replay of counterexamples"),
+    "C01": dict(cat="model_checking", ref="DESIGN.md §1, §3 C01", tech=AB,
+                text="One-operation-from-arbitrary-state harnesses over the real crate: every (len, index, payload) inside the bound for push/insert/pop/remove/swap_remove/clear, all value sources/sinks, erased+typed paths, "
+                     "compared with a Vec reference model; out-of-range calls must end in the documented panic / None. Inductive over histories because the post-state is re-checked to be a valid state."),
+    "C02": dict(cat="model_checking", ref="DESIGN.md §3 C02, §2", tech=AB,
+                text="drain/splice from an arbitrary state for every range, every RangeBounds form, replacement length and front/back consumption pattern (SAT decides all of them in one query per instance); "
+                     "into_range additionally for all 64-bit inputs and arbitrary Bound results in both overflow modes (SMT)."),
+    "C03": dict(cat="model_checking", ref="DESIGN.md §3 C03", tech=A,
+                text="Identity registry maintained by the elements' own Drop/Clone; for an arbitrary identity: visible places == live count <= 1 after every step, destroyed exactly once at the end; two-vector exchanges from arbitrary states, three-vector chains for enumerated shapes."),
+    "C04": dict(cat="model_checking", ref="DESIGN.md §3 C04", tech=A,
+                text="Every checked entry point x (vector type, offered type) incl. same-size pairs: mismatch must reach the type-check panic with the vector unchanged at that point; downcasts succeed iff the type is the real one; type reports are the real ones."),
+    "C05": dict(cat="model_checking", ref="DESIGN.md §1.3, §3 C05", tech=A,
+                text="The C01/C02/C03/C08/C10 harness bodies on a user-defined backend that relocates on every resize and on Heap under Kani's relocating realloc: CBMC's object-bounds / freed-object / ub_checks are the oracle; storage lifecycle counters."),
+    "C06": dict(cat="model_checking", ref="DESIGN.md §3 C06", tech=A,
+                text="Symbolic fault point: at the k-th user-code invocation (element Drop/Clone, replacement next) all vectors are inspected at that instant for the validity predicate; misreporting ExactSizeIterator with symbolic error -2..=+2. Native replay panics and unwinds for real."),
+    "C07": dict(cat="model_checking", ref="DESIGN.md §3 C07", tech=A,
+                text="mem::forget of every handle / range iterator at every stage (symbolic front/back consumption) or of a yielded item, then validity predicate, further use and drop."),
+    "C08": dict(cat="model_checking", ref="DESIGN.md §3 C08", tech=A,
+                text="clone from every state: per-identity clone counters, type/layout/len, storage disjointness, independence under one further operation on either vector; clone_empty(_in) across backend pairs."),
+    "C09": dict(cat="model_checking", ref="DESIGN.md §3 C09", tech=A,
+                text="Lazy clones from every cloneable source kind x consumption kind x chain depth 1..3 x 0..3 consumptions: clone/drop counters around create, copy, drop and each consumption."),
+    "C10": dict(cat="model_checking", ref="DESIGN.md §3 C10, §2", tech=AB,
+                text="Capacity calls from every (len <= capacity) state with symbolic argument, allocator events via logging stubs; the shortfall / shrink / growth arithmetic for all 64-bit values in both overflow modes (SMT), incl. the doubling lemma behind amortisation."),
+    "C11": dict(cat="model_checking", ref="DESIGN.md §3 C11", tech=AB,
+                text="Capacity grid for Stack/StackN, capacity+1 must panic, every stack-backend harness runs with allocator stubs that fail on any heap request; Stack::build / StackN::build for free 64-bit SIZE, N, element size (SMT)."),
+    "C12": dict(cat="model_checking", ref="DESIGN.md §3 C12", tech=AB,
+                text="Pointer/length identities of every byte and slice view, alignment with the vector placed at enumerated offsets of a 64-aligned arena, spare-capacity writes + set_len; byte-view offset arithmetic via SMT. One recorded known finding (inline storage alignment >= 16)."),
+    "C13": dict(cat="model_checking", ref="DESIGN.md §3 C13", tech=A,
+                text="Every accessor kind addresses base + i*size and reports true type/size/bytes for symbolic i; writer-view x reader-view coherence; swap for every handle pairing."),
+    "C14": dict(cat="model_checking", ref="DESIGN.md §3 C14", tech=AB,
+                text="All 2^(L+2) next/next_back interleavings in one query per iterator kind: exact size_hint/len at every step, order, each element once, fused, independent clones; cursor arithmetic via SMT."),
+    "C15": dict(cat="other", ref="DESIGN.md §3 C15", engine="traitsmt",
+                tech="trait-clause encoding extracted from rustdoc JSON of the current tree, decided by z3 over configuration flags; encoder validated against rustc on every run",
+                text="Searches all 8 constraint sets x backend / element flag assignments for a configuration where a vector or handle is Send/Sync/Clone/constructible contrary to the property. A model of trait resolution, not the compiler: weaker than executing code, hence level 'other'.",
+                note="Trusted: this checker's auto-trait and impl-matching rules (compared with rustc on 480 facts per run; unknown constructs make the run inconclusive). Handles and methods covered are listed in the evidence."),
+    "C17": dict(cat="model_checking", ref="DESIGN.md §3 C17", tech=A,
+                text="into_raw_parts / RawParts::clone / from_raw_parts round trips from every state (once, twice), then one further operation; logging allocator; Empty backend."),
+    "C18": dict(cat="model_checking", ref="DESIGN.md §3 C18, §2", tech=AB,
+                text="Logging allocator stubs assert validity and consistency of every layout presented to alloc/realloc/dealloc and leak freedom; capacity requests over the whole usize range; HeapMem::resize as one inductive step over all 64-bit states (SMT)."),
+    "C19": dict(cat="model_checking", ref="DESIGN.md §3 C19", tech=A + "; plus a syntactic scan of the no-default-features MIR (not solver-decided, reported separately)",
+                text="The same stack-backend harness bodies are decided against any_vec built with default features and with --no-default-features: identical oracle => identical behaviour inside the bound."),
 }
 
 NA = {
     "C16": "borrow-checker verdicts on whole programs: no function of the crate to execute symbolically; compiling generated programs would be enumeration, a different technique",
 }
 
+# properties whose quick check has been seen to pass (exit 0) on the current tree; the others stay unclaimed until then
+READY = set("C01 C02 C03 C08 C10 C13 C14".split())
+
+
 def main():
     props = [json.loads(l)["id"] for l in (V / "properties.jsonl").read_text().splitlines() if l.strip()]
     checks = []
     for p in props:
-        if p in CLAIMED:
+        if p in CLAIMED and p in READY:
             c = CLAIMED[p]
             checks.append({
                 "property_id": p,
@@ -38,7 +80,7 @@ def main():
             })
     na = []
     for p in props:
-        if p not in CLAIMED:
+        if p not in CLAIMED or p not in READY:
             na.append({"property_id": p, "reason": NA.get(p, "check not built yet in this session (planned, see DESIGN.md); not claimed until its harnesses run clean")})
     m = {
         "version": 1,
@@ -51,8 +93,12 @@ def main():
             "add_only": True,
         },
         "engines": [
-            {"name": "kani", "path": "kani/ + run.py + harnesses.py", "serves_properties": sorted(p for p, c in CLAIMED.items() if c.get("engine", "kani") == "kani"),
+            {"name": "kani", "path": "kani/ + run.py + harnesses.py + ht_c*.py", "serves_properties": sorted(p for p, c in CLAIMED.items() if c.get("engine", "kani") == "kani" and p in READY),
              "kind_free_text": "Kani 0.68 / CBMC 6.11 bounded model checking of the real crate through its public API; harness instantiations generated per run"},
+            {"name": "mirsmt", "path": "mirsmt/", "serves_properties": ["C01", "C02", "C10", "C11", "C12", "C13", "C14", "C18", "C19"],
+             "kind_free_text": "symbolic execution of rustc MIR (both overflow-check modes) of loop-free kernels to SMT-LIB2; z3 (+cvc5 in thorough)"},
+            {"name": "traitsmt", "path": "traitsmt/", "serves_properties": ["C15"],
+             "kind_free_text": "trait-clause encoding from rustdoc JSON; z3; validated against rustc"},
         ],
         "checks": checks,
         "not_applicable": na,
